@@ -1,14 +1,38 @@
-"""C11 - shadow answers are exact on group-free entries (pair level; see harness/shadow.py).
-The ACL-level report part of C11 is checked together with C04's machine (harness/c04.py) once registered."""
-from harness import shadow
+"""C11 - shadow answers are exact on group-free entries; the ACL report follows its specification.
+Pair level: harness/shadow.py (Trace_Shadow).  Report level: histories of shading()/shadow_of() on group-free ACLs
+(Trace_Acl: every reported pair is a real shadow, and on ACLs with distinct lines the report equals the first-top
+attribution computed by AclSem)."""
+import random
+
+from harness import core, shadow, aclhist
 
 PROP = "C11"
-TRACE_MODULES = ["Trace_Shadow"]
+TRACE_MODULES = ["Trace_Shadow", "Trace_Acl"]
+WEIGHTS = dict(Shading=6, ShadowOf=3, Reverse=1, Permute=1, SetPlatform=1, Ungroup=1, Pop=1)
 
 
 def run(tier, seed):
-    return shadow.run_shadow("C11", tier, seed, groups=False)
+    res = shadow.run_shadow("C11", tier, seed, groups=False)
+    rng = random.Random(seed * 275604541 + 11)
+    n = 1500 if tier == "quick" else 40000
+    jobs = [aclhist.make_history(rng, t, WEIGHTS, nops=rng.randint(1, 4), n=rng.randint(3, 10), groups=False) for t in range(1, n + 1)]
+    aclhist.fill_permutations(rng, jobs)
+    rep = aclhist.run_histories("C11", jobs, tier, [core.mc("MC_Acl")],
+                                "operation mix dominated by shading() / shadow_of() with every skip subset on group-free lists of "
+                                "3..10 entries (bottoms derived from tops, duplicates, interleaved actions)")
+    res["verdicts"] += rep["verdicts"]
+    c, r = res["coverage"], rep["coverage"]
+    for k in ("states", "transitions", "distinct_states", "traces_validated_against_impl", "evaluations", "distinct_nontrivial"):
+        c[k] = c.get(k, 0) + r.get(k, 0)
+    c["rule"] = "PAIRS: " + c["rule"] + " || REPORTS: " + r["rule"]
+    c["samples"] = c["samples"][:2] + r["samples"][:1]
+    c["report_level"] = dict(trace_validation=r["trace_validation"], model_checking=r["model_checking"])
+    res["assumptions"] += rep["assumptions"]
+    return res
 
 
 def replay(path):
-    return shadow.replay_shadow(path)
+    import json
+    with open(path) as f:
+        r = json.load(f)
+    return aclhist.replay_history(path) if "ops" in r["case"] else shadow.replay_shadow(path)
